@@ -39,7 +39,11 @@ pub struct Stats {
 	pub seeks: AtomicUsize,
 	pub fault_delivered: AtomicBool,
 	pub max_pos: AtomicUsize,
+	/// EOF was polled more than EOF_POLL_LIMIT times: a non-consuming loop
+	pub spun: AtomicBool,
 }
+
+pub const EOF_POLL_LIMIT: usize = 4096;
 
 impl Stats {
 	pub fn bytes(&self) -> usize {
@@ -53,6 +57,9 @@ impl Stats {
 	}
 	pub fn max_pos(&self) -> usize {
 		self.max_pos.load(Relaxed)
+	}
+	pub fn spun(&self) -> bool {
+		self.spun.load(Relaxed)
 	}
 	pub fn fault_delivered(&self) -> bool {
 		self.fault_delivered.load(Relaxed)
@@ -103,7 +110,12 @@ impl Read for Src {
 		}
 		let left = self.data.len().saturating_sub(self.pos);
 		if left == 0 {
-			self.stats.eof_polls.fetch_add(1, Relaxed);
+			let polls = self.stats.eof_polls.fetch_add(1, Relaxed);
+			if polls > EOF_POLL_LIMIT {
+				// logical evidence of a loop that does not consume input; break it
+				self.stats.spun.store(true, Relaxed);
+				return Err(io::Error::new(io::ErrorKind::Other, "harness: EOF polled too often"));
+			}
 			return Ok(0);
 		}
 		let mut n = buf.len().min(left);
